@@ -415,8 +415,8 @@ class Table(Vector):
 					)
 				
 				# Replace the column at validated index
-				if not isinstance(value, Vector):
-					value = Vector(value)
+				# (the table stores its own snapshot; the caller keeps its vector)
+				value = value.copy() if isinstance(value, Vector) else Vector(value)
 				
 				if self._underlying and len(value) != self._length:
 					raise ValueError(
@@ -434,8 +434,8 @@ class Table(Vector):
 			col_idx = self._column_map.get(attr) or self._column_map.get(attr.lower())
 			if col_idx is not None:
 				# Replace the column in _underlying
-				if not isinstance(value, Vector):
-					value = Vector(value)
+				# (the table stores its own snapshot; the caller keeps its vector)
+				value = value.copy() if isinstance(value, Vector) else Vector(value)
 				
 				# Validate length
 				if self._underlying and len(value) != self._length:
